@@ -234,6 +234,41 @@ func load(root, dir string) *pkg {
 			})
 		}
 	}
+	// `if err != nil { return ..., <something built from err> }`: pure propagation of a callee's failure.  Such a block
+	// can only hand the error on; when no input makes the callee fail (des.NewCipher on an 8-byte key) it can never
+	// run, and it is not required to have run.  A block that swallows the error (`return nil`) does not qualify.
+	for n, f := range p.files {
+		ast.Inspect(f, func(y ast.Node) bool {
+			is, ok := y.(*ast.IfStmt)
+			if !ok || is.Else != nil || len(is.Body.List) != 1 {
+				return true
+			}
+			be, ok := is.Cond.(*ast.BinaryExpr)
+			if !ok || be.Op != token.NEQ {
+				return true
+			}
+			x, ok1 := be.X.(*ast.Ident)
+			z, ok2 := be.Y.(*ast.Ident)
+			if !ok1 || !ok2 || z.Name != "nil" || !strings.HasPrefix(strings.ToLower(x.Name), "err") {
+				return true
+			}
+			rs, ok := is.Body.List[0].(*ast.ReturnStmt)
+			if !ok || len(rs.Results) == 0 {
+				return true
+			}
+			uses := false
+			ast.Inspect(rs.Results[len(rs.Results)-1], func(q ast.Node) bool {
+				if id, ok := q.(*ast.Ident); ok && id.Name == x.Name {
+					uses = true
+				}
+				return true
+			})
+			if uses {
+				p.dead[n] = append(p.dead[n], [2]int{p.fset.Position(is.Body.Pos()).Line, p.fset.Position(is.Body.End()).Line})
+			}
+			return true
+		})
+	}
 	for n, f := range p.files {
 		ast.Inspect(f, func(y ast.Node) bool {
 			if is, ok := y.(*ast.IfStmt); ok && is.Init == nil {
